@@ -36,6 +36,15 @@ CLAIMED = {
             "Stats.tla is model-checked for all histories of a small scope (invariants: mean, M2, sample variance, EMA closed form, "
             "warm-up weight and convex combination); every history is replayed into the real classes call by call; longer random "
             "histories of the real classes are validated by StatsTrace.tla."),
+    "C12": ("model_checking", "6", "Layout.tla index algebra + best-of-k, TLC exhaustive; replay into batchify/unbatchify/_select_best; LayoutTrace.tla on real select_start_nodes",
+            "Layout.tla (batchify/unbatchify as index functions, any nesting; best-of-k selection) is model-checked for all batch sizes x "
+            "nestings x reward assignments of a small scope; every terminal state is replayed into the real tensor/TensorDict "
+            "operations; forced start nodes of real environments are validated by LayoutTrace.tla (feasible, distinct per instance)."),
+    "C16": ("model_checking", "6", "Reinforce.tla / PPOSurrogate.tla exact surrogates, TLC exhaustive; replay into real loss code with stub policy, autograd gradients compared",
+            "All training steps of a small scope (rewards, log-likelihoods, baseline inputs; successive steps for the stateful "
+            "exponential baseline) are enumerated by TLC with exact loss and gradient values and replayed into REINFORCE.calculate_loss, "
+            "A2C, POMO.shared_step, SymNCO losses and PPO.shared_step; loss and the gradients reaching log-likelihoods / critic outputs "
+            "are compared."),
 }
 PROTO_NOTE = ("Trusted base: TLC 1.8.0; the TLA+ protocol specifications under spec/decode, spec/train; float tolerances stated in the "
               "trace specifications; small-scope hypothesis.")
